@@ -120,14 +120,14 @@ class FakeDatetime:
         if tzinfo is None:
             # drop tzinfo, keep the wall clock: read as local wall time again (only exact when offsets agree)
             raise pse.HarnessError("replace(tzinfo=None) not modelled")
-        new_off = _tz_off(tzinfo)
+        new_off = _tz_off(tzinfo, self.t)
         # same wall clock, other offset: instant moves by (wall_off - new_off)
         return FakeDatetime(self.world, self.t + wall_off - new_off, micro, new_off)
 
     def astimezone(self, tz=None):
         if tz is None:
             return FakeDatetime(self.world, self.t, self.micro, self.world.zone.off(self.t))
-        return FakeDatetime(self.world, self.t, self.micro, _tz_off(tz))
+        return FakeDatetime(self.world, self.t, self.micro, _tz_off(tz, self.t))
 
     def timestamp(self):
         return self.t
@@ -203,7 +203,34 @@ def pse_and(a, b):
     return a & b
 
 
-def _tz_off(tz):
+class FakeTzLocal:
+    """dateutil.tz.tzlocal(): offsets from time.timezone / time.altzone, DST flag from time.localtime - today's rules"""
+
+    def __init__(self, world):
+        self.world = world
+
+    def offset_for(self, t):
+        return self.world.zone.off_by_todays_rules(t)
+
+    def utcoffset(self, d):
+        return FakeTimedelta(seconds=self.offset_for(d.t if isinstance(d, FakeDatetime) else self.world.now))
+
+
+class FakeTzModule:
+    def __init__(self, world):
+        w = world
+        self.tzlocal = lambda: FakeTzLocal(w)
+        self.tzutc = lambda: FakeTimezone.utc
+        self.UTC = FakeTimezone.utc
+        self.tzoffset = lambda name, off: FakeTimezone(off if isinstance(off, FakeTimedelta) else FakeTimedelta(seconds=off))
+
+    def __getattr__(self, k):
+        raise pse.HarnessError("dateutil.tz.%s not modelled" % k)
+
+
+def _tz_off(tz, t=None):
+    if isinstance(tz, FakeTzLocal):
+        return tz.offset_for(t)
     if isinstance(tz, FakeTimezone):
         return tz.offset.secs
     if isinstance(tz, _dt.tzinfo):
